@@ -69,11 +69,19 @@ func (d *Document) GetVariableBooleanValue(name string) (value, valid bool) {
 	if err == nil {
 		return val, true
 	}
-	for i := range d.VariableDefinitions {
-		definitionName := d.VariableDefinitionNameString(i)
-		if definitionName == name {
-			if d.VariableDefinitions[i].DefaultValue.IsDefined {
-				return bool(d.BooleanValue(d.VariableDefinitions[i].DefaultValue.Value.Ref)), true
+	// only the variable definitions of the operations which are part of the document: the
+	// definitions of removed operations (e.g. not selected by the operation name) stay in
+	// d.VariableDefinitions and must not decide
+	for _, node := range d.RootNodes {
+		if node.Kind != NodeKindOperationDefinition {
+			continue
+		}
+		for _, i := range d.OperationDefinitions[node.Ref].VariableDefinitions.Refs {
+			definitionName := d.VariableDefinitionNameString(i)
+			if definitionName == name {
+				if d.VariableDefinitions[i].DefaultValue.IsDefined {
+					return bool(d.BooleanValue(d.VariableDefinitions[i].DefaultValue.Value.Ref)), true
+				}
 			}
 		}
 	}
